@@ -8,7 +8,13 @@ VARIABLES l, ref
 IsEvent(e) == l <= Len(Rec) /\ Rec[l].ev = e /\ l' = l + 1
 SeqSet(s) == {s[k] : k \in 1..Len(s)}
 (* reference: results[k] = <<type, class, number, digest>> from the full build *)
-RefOk(r) == \A k \in 1..Len(r.results) : r.results[k][2] = "Typed" /\ r.results[k][1] = r.results[k][3] /\ r.results[k][1] \in SeqSet(r.supported)
+(* generator frames are typed; synthetic short / padded frames may be Corrupt (supported number) or MsgNotSupported *)
+RefOk(r) == \A k \in 1..Len(r.results) :
+               LET e == r.results[k] IN
+               CASE e[2] = "Typed" -> e[1] = e[3] /\ e[1] \in SeqSet(r.supported)
+                 [] e[2] = "Corrupt" -> e[1] \in SeqSet(r.supported)
+                 [] e[2] = "MsgNotSupported" -> e[1] \notin SeqSet(r.supported)
+                 [] OTHER -> FALSE
 TraceRef == IsEvent("Ref") /\ RefOk(Rec[l]) = TRUE /\ ref' = Rec[l]
 ConfigOk(r) ==
     LET F == SeqSet(r.features) IN
@@ -17,7 +23,7 @@ ConfigOk(r) ==
     /\ \A k \in 1..Len(ref.results) :
           LET n == ref.results[k][1]
               got == r.results[k] IN                            \* <<class, number, digest>>
-          IF n \in F THEN got = <<"Typed", n, ref.results[k][4]>>       \* same message as the full build
+          IF n \in F THEN got = <<ref.results[k][2], ref.results[k][3], ref.results[k][4]>>   \* same outcome as the full build
           ELSE got[1] = "MsgNotSupported" /\ got[2] = n                  \* every other number is unsupported
 TraceConfig == IsEvent("Config") /\ ConfigOk(Rec[l]) = TRUE /\ UNCHANGED ref
 Init == l = 1 /\ ref = [results |-> <<>>, supported |-> <<>>]
